@@ -51,6 +51,13 @@ type C12Sc struct {
 	// themselves, not behind the recording wrapper (type-specific fast paths only
 	// exist for the real types); no bus history then, only totality.
 	Direct bool `json:"direct,omitempty"`
+	// Watch: a memory-mapped write-watch device - EVERY write into [WatchAt, WatchAt+0x100) stores a
+	// fresh NMI request into cpu.Interrupt (also the writes of an acceptance's own pushes)
+	Watch    bool   `json:"watch,omitempty"`
+	WatchAt  uint16 `json:"watch_at,omitempty"`
+	WatchAll bool   `json:"watch_all,omitempty"` // the window is the whole address space
+	// Concurrent: further hostile worlds that run at the same time on their own goroutines
+	Concurrent []C12Sc `json:"concurrent,omitempty"`
 	BP      []uint16    `json:"bp,omitempty"`
 }
 
@@ -64,6 +71,25 @@ func (c12) New() interface{} { return &C12Sc{} }
 var hostileBytes = []uint8{0xdd, 0xfd, 0xed, 0xcb, 0x76, 0xdd, 0xfd, 0xed, 0xcb, 0xc7, 0xff, 0x00, 0xd3, 0xdb, 0xe3, 0xf9, 0x10, 0x18}
 
 func (c12) Gen(r *world.Rng, tier string, n int) interface{} {
+	sc := c12GenOne(r, tier, n)
+	if n%16 == 5 {
+		// independent hostile machines at the same time (nothing of the library may be shared between them)
+		for k := r.Range(1, 3); k > 0; k-- {
+			o := c12GenOne(r, tier, 0)
+			o.UseRun, o.BP = false, nil
+			for i := range o.Events {
+				o.Events[i].Do = ""
+			}
+			o.Steps = r.Range(32, 200)
+			sc.Concurrent = append(sc.Concurrent, *o)
+		}
+		sc.UseRun, sc.BP = false, nil
+		sc.Steps = r.Range(32, 200)
+	}
+	return sc
+}
+
+func c12GenOne(r *world.Rng, tier string, n int) *C12Sc {
 	sc := &C12Sc{MemSeed: r.U64(), Steps: r.Range(1, 64)}
 	switch r.Intn(4) {
 	case 0:
@@ -156,6 +182,11 @@ func (c12) Gen(r *world.Rng, tier string, n int) interface{} {
 		sc.Events = append(sc.Events, ev)
 	}
 	sc.Direct = r.Chance(1, 4)
+	if !sc.Direct && r.Chance(1, 6) {
+		sc.Watch = true
+		sc.WatchAt = sc.Regs.SP - uint16(r.Intn(0x100)) // the stack grows into the watched window
+		sc.WatchAll = r.Bool()
+	}
 	if r.Chance(1, 4) {
 		sc.UseRun = true
 		sc.Steps = r.Range(16, 400)
@@ -347,6 +378,15 @@ func c12Build(sc *C12Sc, env *Env) *c12World {
 			panic(&c12Stop{w.stopWhy})
 		}
 	}
+	if sc.Watch {
+		plain := onAccess
+		onAccess = func() {
+			if l := w.log; len(l) > 0 && l[len(l)-1].Kind == world.MW && (sc.WatchAll || l[len(l)-1].Addr-sc.WatchAt < 0x100) {
+				cpu.Interrupt = z80.NMIInterrupt()
+			}
+			plain()
+		}
+	}
 	cpu.Memory = recMem{inner, &w.log, &w.tick, onAccess}
 	if sc.Direct && !sc.UseRun {
 		cpu.Memory = inner
@@ -388,21 +428,58 @@ func (c12) Exec(sci interface{}, env *Env) (res *Violation) {
 	sc := sci.(*C12Sc)
 	// "no input makes the emulator hang": every scenario runs under a real-time watchdog (the property's
 	// own observe_at names one). A scenario of <= 400 Steps takes micro- to milliseconds.
-	done := make(chan *Violation, 1)
+	type c12Res struct {
+		idx int
+		v   *Violation
+	}
+	done := make(chan c12Res, 1+len(sc.Concurrent))
+	for i := range sc.Concurrent {
+		i := i
+		o := sc.Concurrent[i] // a copy: executing never edits the scenario
+		go func() {
+			defer func() {
+				if r := recover(); r != nil {
+					done <- c12Res{i + 1, viol("panic", "concurrent world: %v", r)}
+				}
+			}()
+			q := NewEnv()
+			q.Quiet = true
+			o.Direct = true
+			done <- c12Res{i + 1, c12Exec(&o, q)}
+		}()
+	}
 	go func() {
 		defer func() {
 			if r := recover(); r != nil {
-				done <- viol("panic", "%v", r)
+				done <- c12Res{0, viol("panic", "%v", r)}
 			}
 		}()
-		done <- c12Exec(sc, env)
+		m := sc
+		if len(sc.Concurrent) > 0 {
+			c := *sc
+			c.Direct = true // the log capture is shared: no per-Step history verdicts while other worlds run
+			m = &c
+			env.Fire("hostile-worlds-running-concurrently")
+		}
+		done <- c12Res{0, c12Exec(m, env)}
 	}()
-	select {
-	case v := <-done:
-		return v
-	case <-time.After(c12Watchdog):
-		return viol("hang", "Step/Run did not come back within %v of real time (memory %s/%d dense %d, io %s, IM=%d, use_run=%t, regs{%s}): Step must return normally, Run must return once its program halts", c12Watchdog, sc.MemKind, sc.MemLen, sc.Dense, sc.IOKind, sc.IM, sc.UseRun, world.FmtStates(sc.Regs.States()))
+	// every world must have finished before the scenario is over: nothing may still be stepping or
+	// logging when the next scenario starts (and of several violations the one of
+	// the lowest-numbered world is reported, whatever order they finished in)
+	timeout := time.After(c12Watchdog)
+	var first *Violation
+	firstIdx := -1
+	for n := 0; n < 1+len(sc.Concurrent); n++ {
+		select {
+		case r := <-done:
+			if r.v != nil && (first == nil || r.idx < firstIdx) {
+				first, firstIdx = r.v, r.idx
+			}
+		case <-timeout:
+			return viol("hang", "Step/Run did not come back within %v of real time (memory %s/%d dense %d, io %s, IM=%d, use_run=%t, regs{%s}): Step must return normally, Run must return once its program halts", c12Watchdog, sc.MemKind, sc.MemLen, sc.Dense, sc.IOKind, sc.IM, sc.UseRun, world.FmtStates(sc.Regs.States()))
+		}
 	}
+	return first
 }
 
 func c12Exec(sc *C12Sc, env *Env) (res *Violation) {
@@ -508,7 +585,9 @@ func c12Exec(sc *C12Sc, env *Env) (res *Violation) {
 		hadReq := cpu.Interrupt != nil
 		pcBefore := cpu.PC
 		w.log = w.log[:0]
-		env.LogBuf.Reset()
+		if !sc.Direct {
+			env.LogBuf.Reset() // (never while other worlds may be logging: only package log writes the shared buffer then)
+		}
 		where = fmt.Sprintf("Step %d at PC=%04x request=%s", step, pcBefore, world.FmtRequest(cpu.Interrupt))
 		cpu.Step()
 		env.Steps++
